@@ -276,20 +276,19 @@ func (u *Universe) meta(s Spec) *protosession.RequestMetaHeader {
 	return m
 }
 
-func n3Sig(ok bool) *refs.Signature {
-	invoc := slices.Clone(N3OKScript)
-	if !ok {
-		invoc = []byte{0x10} // PUSH0
-	}
-	return &refs.Signature{Key: slices.Clone(n3VerifScript), Sign: invoc, Scheme: refs.SignatureScheme_N3}
+// n3Sig makes an N3 witness for the message part m: verification script of the
+// N3 account, invocation script N3OKScript followed by the first 8 bytes of
+// sha256(m) (the fake chain compares them with the hash of the fake transaction,
+// which neofs-node derives from the signed data).
+func n3Sig(m neofscrypto.ProtoMessage) *refs.Signature {
+	b := make([]byte, m.MarshaledSize())
+	m.MarshalStable(b)
+	h := sha256.Sum256(b)
+	return &refs.Signature{Key: slices.Clone(n3VerifScript), Sign: append(slices.Clone(N3OKScript), h[:8]...), Scheme: refs.SignatureScheme_N3}
 }
 
 func flip(sig *refs.Signature, arg int) {
 	if sig == nil || len(sig.Sign) == 0 {
-		return
-	}
-	if sig.Scheme == refs.SignatureScheme_N3 {
-		sig.Sign = []byte{0x10}
 		return
 	}
 	sig.Sign = slices.Clone(sig.Sign)
@@ -311,9 +310,9 @@ func signAndBreak[B neofscrypto.ProtoMessage, R interface {
 	}
 	var vh *protosession.RequestVerificationHeader
 	if s.Scheme == SchemeN3 {
-		vh = &protosession.RequestVerificationHeader{BodySignature: n3Sig(true), MetaSignature: n3Sig(true)}
+		vh = &protosession.RequestVerificationHeader{BodySignature: n3Sig(req.GetBody()), MetaSignature: n3Sig(req.GetMetaHeader())}
 		if m := req.GetMetaHeader(); m == nil || m.Version == nil || m.Version.Major < 2 || (m.Version.Major == 2 && m.Version.Minor < 25) {
-			vh.OriginSignature = n3Sig(true)
+			vh.OriginSignature = n3Sig((*protosession.RequestVerificationHeader)(nil))
 		}
 	} else {
 		var err error
